@@ -1,7 +1,7 @@
 /* S-cost (C08): machine work of the real library measured in executed basic blocks (clang -fsanitize-coverage=trace-pc:
  * the compiler calls __sanitizer_cov_trace_pc at every block of the library) for one connection fed a request stream
  * and a response stream, whole or one byte per call.
- * case: cost \t mode(w|b) \t request hex \t response hex      output: req=<blocks> res=<blocks> maxcall=<blocks in the most expensive call> calls=<n> */
+ * case: cost \t mode(w|b) \t request hex \t response hex      output: req=<blocks> res=<blocks> maxcall=<blocks in the most expensive call> calls=<n> maxhdr=<longest header value> */
 #define _GNU_SOURCE
 #include <stdio.h>
 #include <stdlib.h>
@@ -56,7 +56,22 @@ int main(int argc, char **argv) {
         unsigned long long b0 = cov_blocks;
         htp_connp_close(connp, NULL);
         unsigned long long cl = cov_blocks - b0;
-        printf("req=%llu res=%llu close=%llu maxcall=%llu calls=%llu\n", req, res, cl, maxcall, calls);
+        /* the longest header value any transaction ended up with (the folded-header cap bounds it) */
+        size_t maxhdr = 0;
+        htp_conn_t *conn = connp->conn;
+        for (size_t ti = 0; conn != NULL && ti < htp_list_size(conn->transactions); ti++) {
+            htp_tx_t *tx = htp_list_get(conn->transactions, ti);
+            if (tx == NULL) continue;
+            htp_table_t *tabs[2] = { tx->request_headers, tx->response_headers };
+            for (int tb = 0; tb < 2; tb++) {
+                if (tabs[tb] == NULL) continue;
+                for (size_t hi = 0; hi < htp_table_size(tabs[tb]); hi++) {
+                    htp_header_t *h = htp_table_get_index(tabs[tb], hi, NULL);
+                    if (h != NULL && h->value != NULL && bstr_len(h->value) > maxhdr) maxhdr = bstr_len(h->value);
+                }
+            }
+        }
+        printf("req=%llu res=%llu close=%llu maxcall=%llu calls=%llu maxhdr=%zu\n", req, res, cl, maxcall, calls, maxhdr);
         htp_connp_destroy_all(connp);
         htp_config_destroy(cfg);
         free(q); free(s);
